@@ -574,6 +574,7 @@ func registerIntrinsics(in *Interp) {
 	I["testing.Testing"] = func(st *State, fr *Frame, a []Value, _ ssa.Value) (Value, int) { return done(Bool{C: true}) }
 
 	registerSyncIntrinsics(in)
+	registerCryptoIntrinsics(in)
 	registerTimeIntrinsics(in)
 }
 
